@@ -74,6 +74,17 @@ CHECK_DEADLOCK FALSE
     rep.set("model_behaviours_exported", len(beh))
     if not any(len(set(b["score"])) == 1 for b in beh):
         raise common.MachineryError("vacuous export: no all-tie score table")
+    # the same lemmas for ARBITRARY scores (TLC enumerates score tables 0..2 only): Apalache, symbolically, over all natural-number
+    # score tables, all rotations and all node orders of N nodes -- incl. the as-coded fold of get_node
+    from lib import apalache
+    napa = 4 if tier == "quick" else 5
+    verdict, detail = apalache.check("PlacementApa", "Inv", defs={"N": napa}, timeout=300 if tier == "quick" else 1500)
+    rep.set("apalache_placement_lemmas", {"nodes": napa, "verdict": verdict})
+    if verdict == "violated":
+        rep.violation("C11/model/apalache/PlacementApa", "the placement lemmas (unique winner, removal / addition locality, fold = winner) "
+                      "fail for some integer score table", {"counterexample": detail})
+    elif verdict != "ok":
+        rep.assumptions.append("Apalache run skipped (%s): the placement lemmas rest on TLC's enumeration of score tables 0..2" % detail[:120].replace("\n", " "))
     traces = []
     # ---- (i) spec -> code with forced ties
     stride = 6 if tier == "quick" else 1
